@@ -89,6 +89,45 @@ func c07CheckParse(c c07Parse, st *stats.Run, count bool) error {
 	return nil
 }
 
+// patternReader produces a position-dependent byte pattern; patternCheck verifies it.
+type patternReader struct {
+	left int
+	pos  int64
+}
+
+func (r *patternReader) Read(p []byte) (int, error) {
+	if r.left == 0 {
+		return 0, io.EOF
+	}
+	n := len(p)
+	if n > r.left {
+		n = r.left
+	}
+	for i := 0; i < n; i++ {
+		x := r.pos + int64(i)
+		p[i] = byte(x ^ x>>8 ^ x>>16)
+	}
+	r.pos += int64(n)
+	r.left -= n
+	return n, nil
+}
+
+type patternCheck struct {
+	n   int64
+	bad bool
+}
+
+func (c *patternCheck) Write(p []byte) (int, error) {
+	for i := range p {
+		x := c.n + int64(i)
+		if p[i] != byte(x^x>>8^x>>16) {
+			c.bad = true
+		}
+	}
+	c.n += int64(len(p))
+	return len(p), nil
+}
+
 // headerGeneratable: MAC of 32 bytes is implied by refage; all fine.
 func headerGeneratable(h *refage.Header) bool { return len(h.MAC) == 32 }
 
@@ -514,6 +553,90 @@ func TestC07(t *testing.T) {
 		H1, H2 refage.Header
 		FailAt int `json:"failAt"`
 	}
+	// the same Header value serialised again after it was edited in place
+	type reuseCase struct {
+		H    refage.Header `json:"h"`
+		Edit string        `json:"edit"` // type | arg | body | body-len | replace | mac
+		J    int           `json:"j"`
+	}
+	pbt.Rapid(s, "marshal-after-edit", s.N(4000, 30000), func(t *rapid.T) reuseCase {
+		return reuseCase{H: genHeader(t, 4), Edit: rapid.SampledFrom([]string{"type", "arg", "body", "body-len", "replace", "mac"}).Draw(t, "edit"), J: rapid.IntRange(0, 3).Draw(t, "j")}
+	}, func(c reuseCase) error {
+		if len(c.H.Stanzas) == 0 {
+			return nil
+		}
+		fh := &format.Header{MAC: append([]byte{}, c.H.MAC...)}
+		for _, st := range c.H.Stanzas {
+			fh.Recipients = append(fh.Recipients, &format.Stanza{Type: st.Type, Args: append([]string{}, st.Args...), Body: append([]byte{}, st.Body...)})
+		}
+		var first, mac bytes.Buffer
+		if err := fh.Marshal(&first); err != nil {
+			return pbt.Failf("C07/marshal-error", "Marshal failed: %v", err)
+		}
+		fh.MarshalWithoutMAC(&mac)
+		want := refage.Header{MAC: append([]byte{}, c.H.MAC...)}
+		for _, st := range c.H.Stanzas {
+			want.Stanzas = append(want.Stanzas, refage.Stanza{Type: st.Type, Args: append([]string{}, st.Args...), Body: append([]byte{}, st.Body...)})
+		}
+		j := c.J % len(fh.Recipients)
+		switch c.Edit {
+		case "type":
+			fh.Recipients[j].Type += "x"
+			want.Stanzas[j].Type += "x"
+		case "arg":
+			fh.Recipients[j].Args = append(fh.Recipients[j].Args, "extra")
+			want.Stanzas[j].Args = append(want.Stanzas[j].Args, "extra")
+		case "body":
+			if len(fh.Recipients[j].Body) > 0 {
+				fh.Recipients[j].Body[0] ^= 1
+				want.Stanzas[j].Body[0] ^= 1
+			}
+		case "body-len":
+			fh.Recipients[j].Body = append(fh.Recipients[j].Body, 7)
+			want.Stanzas[j].Body = append(want.Stanzas[j].Body, 7)
+		case "replace":
+			fh.Recipients[j] = &format.Stanza{Type: "replaced", Args: []string{"a"}, Body: []byte("b")}
+			want.Stanzas[j] = refage.Stanza{Type: "replaced", Args: []string{"a"}, Body: []byte("b")}
+		case "mac":
+			fh.MAC[0] ^= 1
+			want.MAC[0] ^= 1
+		}
+		s.St.Case(true, stats.HashJSON(c), "B-edit-in-place="+c.Edit)
+		var second bytes.Buffer
+		if err := fh.Marshal(&second); err != nil {
+			return pbt.Failf("C07/marshal-error", "Marshal failed: %v", err)
+		}
+		if !bytes.Equal(second.Bytes(), want.Marshal()) {
+			return pbt.Failf("C07/marshal-depends-on-history", "a Header value that was serialised, then edited in place (%s of stanza %d), serialises to\n %q\ninstead of\n %q", c.Edit, j, trunc(second.Bytes()), trunc(want.Marshal()))
+		}
+		return nil
+	})
+	// an input far larger than any header: the payload reader still hands out every byte after the header
+	pbt.Each(s, "parse-big-payload", func(yield func(int)) {
+		if s.Shard == 0 {
+			for _, n := range []int{64<<20 - 1000, 64 << 20, 64<<20 + 1000, 100 << 20} {
+				yield(n)
+			}
+			s.St.Exhaust("inputs of 64 MiB -1000, 64 MiB, 64 MiB +1000 and 100 MiB through a plain reader: the payload is exactly the remainder", 4)
+		}
+	}, func(total int) error {
+		h := refage.Header{MAC: hx.PRG(9, 32), Stanzas: []refage.Stanza{{Type: "X25519", Args: []string{"abc"}, Body: hx.PRG(1, 32)}}}
+		hdr := h.Marshal()
+		s.St.Case(true, stats.Hash([]byte(fmt.Sprint("big", total))), "big-input")
+		src := io.MultiReader(bytes.NewReader(hdr), &patternReader{left: total - len(hdr)})
+		_, payload, err := format.Parse(onlyReader{src})
+		if err != nil {
+			return pbt.Failf("C07/wellformed-rejected", "Parse failed on a %d-byte input: %v", total, err)
+		}
+		cw := &patternCheck{}
+		if _, err := io.Copy(cw, payload); err != nil {
+			return pbt.Failf("C07/payload-read", "reading the payload: %v", err)
+		}
+		if cw.n != int64(total-len(hdr)) || cw.bad {
+			return pbt.Failf("C07/payload-not-remainder", "a %d-byte input with a %d-byte header: the payload reader hands out %d bytes (pattern intact: %v), the remainder has %d", total, len(hdr), cw.n, !cw.bad, total-len(hdr))
+		}
+		return nil
+	})
 	pbt.Rapid(s, "marshal-after-failed-write", s.N(3000, 20000), func(t *rapid.T) failThenOK {
 		return failThenOK{H1: genHeader(t, 3), H2: genHeader(t, 3), FailAt: rapid.IntRange(0, 40).Draw(t, "failAt")}
 	}, func(c failThenOK) error {
